@@ -10,6 +10,7 @@ import (
 	"encoding"
 	"errors"
 	"fmt"
+	"runtime"
 	"strings"
 	"testing"
 
@@ -329,6 +330,110 @@ func TestEveryCount(t *testing.T) {
 			return info, nil
 		},
 		Require: []string{"empty", "single", "balanced", "unbalanced/odd=0", "unbalanced/odd=1"},
+	})
+}
+
+// ---- configuration: scheduler width (GOMAXPROCS) x large leaf counts ----
+
+type procsCase struct {
+	Procs   int `json:"gomaxprocs"`
+	N       int `json:"n"`
+	Hash    int `json:"hash"`
+	Variant int `json:"variant"`
+}
+
+func TestSchedulerWidth(t *testing.T) {
+	h.Run(t, h.Sub[procsCase]{
+		Prop: "C15", Name: "gomaxprocs-x-large-counts", N: 96,
+		Gen: func(t *rapid.T) procsCase {
+			c := procsCase{Procs: h.OneOf(t, "procs", 1, 2, 3, 4, 5, 6, 7, 8, 9, 10, 12, 15, 16, 24, 32), Hash: rapid.IntRange(0, 3).Draw(t, "hash"), Variant: rapid.IntRange(0, 2).Draw(t, "variant")}
+			switch h.Pick(t, "nk", 3, 3, 2) {
+			case 0:
+				c.N = 1 << uint(rapid.IntRange(10, 13).Draw(t, "k"))
+				c.N += rapid.IntRange(-2, 2).Draw(t, "d")
+			case 1:
+				c.N = rapid.IntRange(1000, 3000).Draw(t, "n")
+			default:
+				c.N = rapid.IntRange(3001, 9000).Draw(t, "nl")
+			}
+			return c
+		},
+		Check: func(c procsCase) (h.Info, error) {
+			if c.Procs < 1 || c.Procs > 64 || c.N < 0 || c.N > 1<<16 {
+				return h.Info{}, fmt.Errorf("PRECONDITION: procs/n")
+			}
+			old := runtime.GOMAXPROCS(c.Procs)
+			defer runtime.GOMAXPROCS(old)
+			k := 1
+			for k*2 < c.N {
+				k *= 2
+			}
+			_, err := checkTree(treeCase{Hash: c.Hash, Leaves: patternLeaves(c.N, c.Variant), Probe: []int{0, k, c.N - 1}})
+			info := h.Info{Class: "procs=power-of-two", NT: true}
+			if c.Procs&(c.Procs-1) != 0 {
+				info.Class = "procs=other"
+			}
+			if err != nil {
+				return info, fmt.Errorf("GOMAXPROCS=%d, n=%d hash=%d variant=%d: %w", c.Procs, c.N, c.Hash, c.Variant, err)
+			}
+			return info, nil
+		},
+		Require: []string{"procs=power-of-two", "procs=other"},
+		Rule:    "configurations: GOMAXPROCS in {1..10, 12, 15, 16, 24, 32} x leaf counts 1000..9000 (weighted to 2^k+-2, k = 10..13) x 4 hash functions: root = bottom-up reference and RFC 9162 inclusion proofs verify, whatever the scheduler width; all non-trivial",
+	})
+}
+
+// ---- concurrent callers sharing one Hasher ----
+
+type concCase struct {
+	Hash  int     `json:"hash"`
+	Trees [][]h.B `json:"trees"`
+	Iters int     `json:"iters"`
+}
+
+func checkConcurrent(c concCase) (h.Info, error) {
+	hf := hashes[c.Hash]
+	info := h.Info{Class: fmt.Sprintf("goroutines=%d", len(c.Trees)), NT: len(c.Trees) > 1}
+	hasher := merkle.NewHasher(hf)
+	wants := make([][]byte, len(c.Trees))
+	datas := make([][]encoding.BinaryMarshaler, len(c.Trees))
+	for g, tr := range c.Trees {
+		raw := make([][]byte, len(tr))
+		for i := range tr {
+			raw[i] = tr[i]
+			datas[g] = append(datas[g], rawLeaf(append([]byte{}, tr[i]...)))
+		}
+		wants[g] = refRoot(hf, raw)
+	}
+	err := h.Parallel(len(c.Trees), func(g int) error {
+		for it := 0; it < c.Iters; it++ {
+			got, err := hasher.Hash(datas[g])
+			if err != nil || !bytes.Equal(got, wants[g]) {
+				return fmt.Errorf("goroutine %d of %d sharing one Hasher (%v), iteration %d: Hash of its own %d leaves = %x, %v; bottom-up reference %x", g, len(c.Trees), hf, it, len(datas[g]), got, err, wants[g])
+			}
+		}
+		return nil
+	})
+	return info, err
+}
+
+func TestConcurrent(t *testing.T) {
+	h.Run(t, h.Sub[concCase]{
+		Prop: "C15", Name: "concurrent-callers", N: 80,
+		Gen: func(t *rapid.T) concCase {
+			c := concCase{Hash: rapid.IntRange(0, 3).Draw(t, "hash"), Iters: 60}
+			for i := h.OneOf(t, "g", 2, 4, 8); i > 0; i-- {
+				tc := genTree(t)
+				if len(tc.Leaves) > 40 {
+					tc.Leaves = tc.Leaves[:40]
+				}
+				c.Trees = append(c.Trees, tc.Leaves)
+			}
+			return c
+		},
+		Check:   checkConcurrent,
+		Require: []string{"goroutines=2", "goroutines=8"},
+		Rule:    "schedules: 2..8 goroutines released together share one Hasher and hash their own leaf lists (0..40 leaves) 60 times each; every root = bottom-up reference computed beforehand; all non-trivial",
 	})
 }
 
